@@ -194,6 +194,26 @@ def run(ctx):
                 viol("e2e-expression-args-unfaithful", args=argv[2:], text=text, want=want)
                 break
 
+    # groups that do not take part in a match: the named views keep the member with an empty string, the numbered
+    # views leave it out; (?P<n>..) and (?<n>..) are the same thing; a repeated name keeps its last group
+    for margs, line, want_named, want_numbered in [
+        (["-m", r"^(?P<a>x)?(?<b>y)(?:z(?P<c>w))?$"], "y", [("a", ""), ("b", "y"), ("c", "")], [("0", "y"), ("2", "y")]),
+        (["-m", r"^(?P<n>a)(?P<n>b)(?<m>c)$"], "abc", [("m", "c"), ("n", "b")], [("0", "abc"), ("1", "a"), ("2", "b"), ("3", "c")]),
+        (["-m", r"^(a)|(?P<z>b)$"], "a", [("z", "")], [("0", "a"), ("1", "a")]),
+    ]:
+        gpath = os.path.join(work, "e2e_groups.txt")
+        with open(gpath, "w") as f:
+            f.write(line + "\n")
+        for key, want in [("{.}", want_named), ("{#}", want_numbered), ("{.#}", want_named + want_numbered)]:
+            p = subprocess.run([exe, "filter"] + margs + ["-e", key, gpath], stdout=subprocess.PIPE, stderr=subprocess.PIPE, timeout=60)
+            runs += 1
+            try:
+                pairs = [tuple(x) for x in json.loads(p.stdout.decode("utf-8"), object_pairs_hook=list, strict=True)]
+                if pairs != want:
+                    viol("e2e-absent-group", matcher=margs, expression=key, text=p.stdout.decode("utf-8", "replace"), want=want)
+            except Exception as e:
+                viol("e2e-absent-group-invalid-json", matcher=margs, expression=key, text=p.stdout.decode("utf-8", "replace"), error=str(e))
+
     # a very long capture (the correspondence keeps values small because the model is quadratic): one line of > 1 MB
     # with quotes, backslashes, control bytes and non-ASCII; {#} must stay valid and decode to the line
     unit = "abc\"\\\x01\u00e90123456789\t"
